@@ -993,10 +993,10 @@ End Flags.
 (* non-vacuity on the two doubles that the scan before commit c53b19e spoiled: with an oracle that
    prints 1.5e+20 and 2.5000000000000002e-10 as libc does, the text under JSON_C_TO_STRING_NOZERO is the
    %.17g text, exponent intact *)
-Definition w_bits : Z := 4908497940830202160.                               (* 0x442043561A882930 = 1.5e+20 *)
+Definition w_bits : Z := 4908997630925220144.                               (* 0x442043561A882930 = 1.5e+20 *)
 Definition w_text : list byte := [49;46;53;101;43;50;48].                    (* 1.5e+20 *)
 Definition w_tok : numtok := mknum false [49] (Some [53]) (Some (false, EPlus, [50;48])).
-Definition w2_bits : Z := 4457293557087583675.                              (* 0x3DF12E0BE826D69B = 2.5e-10 *)
+Definition w2_bits : Z := 4463399334375249557.                              (* 0x3DF12E0BE826D695 = 2.5e-10 *)
 Definition w2_text : list byte := [50;46;53;48;48;48;48;48;48;48;48;48;48;48;48;48;48;50;101;45;49;48].   (* 2.5000000000000002e-10 *)
 Definition w2_tok : numtok := mknum false [50] (Some [53;48;48;48;48;48;48;48;48;48;48;48;48;48;48;50]) (Some (false, EMinus, [49;48])).
 Definition w_fmt17 : Z -> list byte := fun bits => if bits =? w2_bits then w2_text else w_text.
@@ -1772,10 +1772,10 @@ End RoundTripScalars.
 Definition ex_doubles : list (Z * list byte) :=
   [ (4609434218613702656, [49;46;53]);                                  (* 1.5       -> 1.5 *)
     (4607182418800017408, [49]);                                        (* 1.0       -> 1      (".0" is appended) *)
-    (13830554455654793216, [45;48]);                                    (* -0.0      -> -0 *)
+    (9223372036854775808, [45;48]);                                    (* -0.0      -> -0 *)
     (4591870180066957722, [48;46;49;48;48;48;48;48;48;48;48;48;48;48;48;48;48;48;48;49]);  (* 0.1 -> 0.10000000000000001 *)
     (4906019910204099648, [49;101;43;50;48]);                           (* 1e+20 *)
-    (4908497940830202160, [49;46;53;101;43;50;48]) ].                   (* 1.5e+20 *)
+    (4908997630925220144, [49;46;53;101;43;50;48]) ].                   (* 1.5e+20 *)
 Definition ex_fmt17 (bits : Z) : list byte :=
   match find (fun e => fst e =? bits) ex_doubles with Some e => snd e | None => [48] end.
 Definition ex_strtod (tok : list byte) : Z :=
@@ -1790,10 +1790,10 @@ Definition ex_strtod (tok : list byte) : Z :=
    solidus, one empty name; empty array and object inside; the double 1.5e+20) and a small uint64 *)
 Definition ex_tree : jv :=
   JArr [JNull; JBool true; JInt (-9223372036854775808); JUint 18446744073709551615;
-        JDouble 4609434218613702656 None; JDouble 4607182418800017408 None; JDouble 13830554455654793216 None;
+        JDouble 4609434218613702656 None; JDouble 4607182418800017408 None; JDouble 9223372036854775808 None;
         JDouble 4591870180066957722 None; JDouble 4906019910204099648 None;
         JStr [97;47;34;92;0;31;195;169];
-        JObj [([107;47], JArr [JArr []; JObj []]); ([], JObj [([120], JDouble 4908497940830202160 None)])];
+        JObj [([107;47], JArr [JArr []; JObj []]); ([], JObj [([120], JDouble 4908997630925220144 None)])];
         JUint 7].
 
 (* all 32 flag words without COLOR *)
